@@ -467,7 +467,12 @@ def run_case(case):
         # mechanism class of the generated model: is it inside the "supported" scope, and if
         # not, why (the reference model's screening, never the seed)?
         ok_s, reasons = ref.supported(ref.solve(desc["params"]))
-        cls = "supported" if ok_s else "unsupported:" + ",".join(sorted({r.split(":", 1)[1] for r in reasons}))
+        # one primary reason (priority order), so that the key does not depend on which
+        # combination of screening reasons a random model happens to have
+        rs = {r.split(":", 1)[1] for r in reasons}
+        prim = next((x for x in ("empty_space", "transition_into_excluded_or_out_of_range", "state_without_feasible_choice",
+                                 "nan_at_feasible_choice", "nonfinite_value") if x in rs), "other")
+        cls = "supported" if ok_s else "unsupported:" + prim
         add("generated_" + ("supported" if ok_s else "unsupported"))
         o = run_accept(desc, res, add, "generated_" + cls, rng, init=gen.gen_initial_states(rng, ref, 6, out_of_range=0.0))
         if o == "violation" and not ok_s:
